@@ -392,9 +392,11 @@ func BuildCorpus(thorough bool) int {
 				item := Item{Kind: "frame", Name: cs.Name, Version: uint8(v), Comp: string(comp), Bytes: append([]byte{}, buf.Bytes()...)}
 				if comp == primitive.CompressionNone {
 					item.Fields = traceFields(item.Bytes)
-					item.Pairs = 1
-					if thorough {
-						item.Pairs = 2
+					if !isHdr && !isOpts { // pairs on the message itself; header variants and option vectors get single-site mutations
+						item.Pairs = 1
+						if thorough {
+							item.Pairs = 2
+						}
 					}
 				}
 				add(item)
